@@ -52,14 +52,14 @@ def refactors_table() -> str:
     rdir = V / "refactors"
     if not rdir.is_dir():
         return "(none yet)"
-    rows = ["| refactoring | what was restructured | files | verdict of `./check ALL` on it |", "|---|---|---|---|"]
+    rows = ["| refactoring (round) | what was restructured | files | verdict of `./check ALL` on it |", "|---|---|---|---|"]
     for d in sorted(rdir.iterdir()):
         mp = d / "meta.json"
         if not mp.exists():
             continue
         m = json.loads(mp.read_text())
         files = ", ".join(Path(f).name for f in (m.get("files") or []))
-        rows.append(f"| {d.name} | {(m.get('title') or '').replace('|', '/')} | {files} | {m.get('verdict', '?')} |")
+        rows.append(f"| {d.name} ({m.get('wave', 1)}) | {(m.get('title') or '').replace('|', '/')} | {files} | {str(m.get('verdict', '?'))[:600].replace('|', '/')} |")
     return "\n".join(rows)
 
 
